@@ -232,7 +232,8 @@ func zzLKEq(a interface{}, b *zzLK) bool {
 	return x.id == b.id
 }
 
-// pool of concrete LinkedKeys: ids 0 and 1 collide in every table, 2/3/4 in tables of size 3 and 7 ...
+// pool of concrete LinkedKeys {hash, id}: ids 0 and 1 collide in every table, ids 2 and 3 join them in a
+// 3-slot table, id 4 in a 7-slot table; extreme hash values 2^64-1 and 2^63
 var zzLKPool = []zzLK{{0, 0}, {0, 1}, {3, 2}, {^uint(0), 3}, {7, 4}, {1 << 63, 5}}
 
 // zzLKNew returns a fresh key object (never the object stored earlier: Equals, not identity, decides).
@@ -262,17 +263,30 @@ var zzCfgAll = []zzCfg{{1, 0.75}, {1, 1.0}, {2, 0.75}, {2, 1.0}, {3, 0.75}, {3, 
 // a fixed table of 3 slots is what (1,0.75) has after its first insertion, so they are left to thorough/Pool
 var zzCfgSymQuick = []zzCfg{{1, 0.75}, {1, 1.0}, {2, 0.75}}
 
-// Symbolic harness, thorough tier (<= 3 keys): capacities 1 and 2 (growth 1->3->7 and 2->5)
-var zzCfgSymThorough = []zzCfg{{1, 0.75}, {1, 1.0}, {2, 0.75}, {2, 1.0}}
+// Symbolic harness, prefix of 2 insertions (thorough tier, 3 keys): growth 1->3->7 and 2->5
+var zzCfgSym2 = []zzCfg{{1, 0.75}, {2, 0.75}}
 
-func zzCfgs(sym bool) []zzCfg {
+// zzCfgs: table configurations for a history whose insertion prefix has nPre elements
+func zzCfgs(sym bool, nPre int) []zzCfg {
 	if !sym {
 		return zzCfgAll
 	}
-	if zzvf.Thorough() {
-		return zzCfgSymThorough
+	if nPre >= 2 {
+		return zzCfgSym2
 	}
 	return zzCfgSymQuick
+}
+
+// zzMaxes: maximum sizes (0 = unbounded). Symbolic harness: with <= 2 keys a maximum of 2 never
+// evicts; with 3 keys the maxima 0 and 2 are used (1 is covered by the shorter histories and by Pool)
+func zzMaxes(sym bool, nPre int) []int {
+	if !sym {
+		return []int{0, 1, 2}
+	}
+	if nPre >= 2 {
+		return []int{0, 2}
+	}
+	return []int{0, 1}
 }
 
 func zzMin(a, b int) int {
@@ -282,9 +296,9 @@ func zzMin(a, b int) int {
 	return b
 }
 
-// zzPutAllN: put-all takes 0..2 elements (Symbolic harness, quick tier: 0..1)
+// zzPutAllN: put-all takes 0..2 elements (Symbolic harness: 0..1, each element is one more symbolic key)
 func zzPutAllN(sym bool) int {
-	if sym && !zzvf.Thorough() {
+	if sym {
 		return 2
 	}
 	return 3
@@ -996,16 +1010,14 @@ func zzDo_%(N)s(m *%(N)s, ref *zzM_%(N)s, opn string, sym bool, what string) str
 // public operations, then the complete observable state is compared with the model.
 func zzRun_%(N)s(sym bool, nIns, nOps, poolN int) {
 	what := "%(N)s"
-	cfgs := zzCfgs(sym)
+	nPre := zzvf.Choose(nIns + 1) // length of the insertion prefix
+	cfgs := zzCfgs(sym, nPre)
 	cfg := cfgs[zzvf.Choose(len(cfgs))]
 	m := zzNew_%(N)s(cfg.cap, cfg.lf)
 	ref := &zzM_%(N)s{poolN: poolN}''' % dict(N=N, maxdoc=', maximum size 0 (unbounded) / 1 / 2' if self.linked else ''))
         if self.linked:
-            w('''	nMax := 3
-	if sym && !zzvf.Thorough() {
-		nMax = 2 // with <= 2 entries a maximum of 2 never evicts
-	}
-	if mx := zzvf.Choose(nMax); mx > 0 {
+            w('''	maxes := zzMaxes(sym, nPre)
+	if mx := maxes[zzvf.Choose(len(maxes))]; mx > 0 {
 		m.SetMax(mx)
 		ref.max = mx
 	}''')
@@ -1022,7 +1034,7 @@ func zzRun_%(N)s(sym bool, nIns, nOps, poolN int) {
 			ref.plainVals = true
 		}
 	}
-	for i, n := 0, zzvf.Choose(nIns+1); i < n; i++ {
+	for i := 0; i < nPre; i++ {
 		ins := 0 // the first insertion (into the empty structure) is a plain put: put-first / put-last on
 		// the empty structure are exercised as the arbitrary operation (thorough: followed by a 2nd one)
 		if i > 0 {
@@ -1058,7 +1070,7 @@ func ZZ_%(P)s_%(N)s_Pool() {
 }
 
 // Symbolic: ALL keys and values symbolic%(lkdoc)s. Bounds: prefix of <= 1 insertion
-// (thorough 2) + 1 operation; table configurations: zzCfgSymQuick / zzCfgSymThorough.
+// (thorough 2) + 1 operation; table configurations / maxima: zzCfgs, zzMaxes (zz_model.go).
 //vf:%(dirs)s
 func ZZ_%(P)s_%(N)s_Symbolic() {
 	if zzvf.Thorough() {
